@@ -35,7 +35,7 @@ def safe_area(shape=None, model=None, obligation=None, **_):
   for s in cands:
     doc = C.SHAPES[shape]()
     try:
-      LCDDocFilter(LCDDocFilterConfig(safe_area=s)).process(doc)
+      LCDDocFilter(LCDDocFilterConfig(safe_area=s, **C.CONFIG.get(shape, {}))).process(doc)
     except Exception as e:  # pylint: disable=broad-except
       return True, f"shape {shape}, safe_area={s}: LCDDocFilter.process raised {e!r}"
     for reg in doc.iter_regions():
